@@ -1,3 +1,6 @@
 import MpirProofs.Lemmas.Base
 import MpirProofs.Lemmas.Kernels
 import MpirProofs.Props.C03
+import MpirProofs.Lemmas.Mpz
+import MpirProofs.Props.C03_mpz
+import MpirProofs.Props.C01_mpz
